@@ -3,6 +3,8 @@ import PdfVerif.Lemmas.LayoutBoxes
 namespace PdfVerif.Layout
 open PdfVerif PdfVerif.Gen.Layout
 
+variable {le : Cmp}
+
 /-! ## the final stage: analysis of boxes and groups, numbering, output order -/
 
 /-- A box without its number. -/
@@ -62,15 +64,15 @@ theorem analyze_glyphs_flatMap (bs : List Box) : ((bs.map Box.analyze).flatMap B
 theorem finalBoxes_spec (p : LAParams) (pageBB : BB) (boxes : List Box)
     (hbid : (boxes.map (·.bid)).Nodup) :
     -- the boxes are the analysed input boxes, renumbered
-    (((finalBoxes p pageBB boxes).1.map strip).Perm ((boxes.map Box.analyze).map strip))
+    (((finalBoxes le p pageBB boxes).1.map strip).Perm ((boxes.map Box.analyze).map strip))
     -- numbered 0..n-1 in output order
-    ∧ ((finalBoxes p pageBB boxes).1.map (·.index) = (List.range' 0 boxes.length).map Int.ofNat)
+    ∧ ((finalBoxes le p pageBB boxes).1.map (·.index) = (List.range' 0 boxes.length).map Int.ofNat)
     -- loop ended by itself, no KeyError
-    ∧ (finalBoxes p pageBB boxes).2.2.fuel = false ∧ (finalBoxes p pageBB boxes).2.2.err = false
+    ∧ (finalBoxes le p pageBB boxes).2.2.fuel = false ∧ (finalBoxes le p pageBB boxes).2.2.err = false
     -- the hierarchy: its leaves in depth-first order are exactly the output boxes; every group is well formed
-    ∧ (∀ gs, (finalBoxes p pageBB boxes).2.1 = some gs →
-        gs.flatMap Node.leaves = (finalBoxes p pageBB boxes).1)
-    ∧ ((finalBoxes p pageBB boxes).2.1 = none ↔ p.boxes_flow = none) := by
+    ∧ (∀ gs, (finalBoxes le p pageBB boxes).2.1 = some gs →
+        gs.flatMap Node.leaves = (finalBoxes le p pageBB boxes).1)
+    ∧ ((finalBoxes le p pageBB boxes).2.1 = none ↔ p.boxes_flow = none) := by
   unfold finalBoxes
   cases hbf : p.boxes_flow with
   | none =>
@@ -84,8 +86,8 @@ theorem finalBoxes_spec (p : LAParams) (pageBB : BB) (boxes : List Box)
       rw [this]
   | some bf =>
     simp only
-    have hspec := groupTextboxes_spec pageBB boxes
-    set nodes := (groupTextboxes pageBB boxes).1 with hnodes
+    have hspec := groupTextboxes_spec (le := le) pageBB boxes
+    set nodes := (groupTextboxes le pageBB boxes).1 with hnodes
     set leaves' := (analyzeGroups bf nodes 0).flatMap Node.leaves with hleaves
     have F1 : (leaves'.map strip).Perm ((boxes.map Box.analyze).map strip) :=
       (analyzeGroups_strip bf nodes 0).trans ((hspec.1.map Box.analyze).map strip)
@@ -185,6 +187,8 @@ end PdfVerif.Layout
 
 namespace PdfVerif.Layout
 open PdfVerif PdfVerif.Gen.Layout
+
+variable {le : Cmp}
 
 /-! ## "the bounding box is exactly the union of the members'" -/
 
@@ -312,12 +316,12 @@ theorem groupOK_analyzeGroups (bf : Rat) : ∀ (ns : List Node) (k : Nat), (∀ 
 
 theorem finalBoxes_groupsOK (p : LAParams) (pageBB : BB) (boxes : List Box) (bf : Rat)
     (hbf : p.boxes_flow = some bf) :
-    ∀ gs, (finalBoxes p pageBB boxes).2.1 = some gs → ∀ g ∈ gs, GroupOK bf g := by
+    ∀ gs, (finalBoxes le p pageBB boxes).2.1 = some gs → ∀ g ∈ gs, GroupOK bf g := by
   intro gs hgs g hg
   unfold finalBoxes at hgs
   rw [hbf] at hgs
   simp only [Option.some.injEq] at hgs
   subst hgs
-  exact groupOK_analyzeGroups bf _ 0 (groupTextboxes_spec pageBB boxes).2.1 g hg
+  exact groupOK_analyzeGroups bf _ 0 (groupTextboxes_spec (le := le) pageBB boxes).2.1 g hg
 
 end PdfVerif.Layout
